@@ -1,7 +1,7 @@
 (* Executable correspondence checker for C10: the compiler model against what
    cao_lang::compiler::compile returned, and the well-formedness oracle on the crate's output. *)
 From Cao Require Export CheckUtil CardAst Bytecode Compiler Wellformed.
-From Cao Require Import Bits CompilerGen.
+From Cao Require Import Bits CompilerGen WellformedSide.
 Local Open Scope N_scope.
 
 (* [disasm] = the instruction starts listed by CaoCompiledProgram::disassemble_string, when the harness
@@ -101,8 +101,10 @@ Proof. reflexivity. Qed.
 Definition check1 (c : c10case) : list N :=
   match c with
   | C10Case m limit debug obs disasm =>
+      (* the side conditions of Properties/C10.C10_compile_wellformed are re-checked on every case *)
       if negb (module_in_domain m
-               && program_in_range m {| o_recursion_limit := limit; o_debug := debug |}) then [3]
+               && program_in_range m {| o_recursion_limit := limit; o_debug := debug |}
+               && program_utf8 m {| o_recursion_limit := limit; o_debug := debug |}) then [3]
       else
         let sp := spec_codes obs disasm in
         match model_diff c with
